@@ -13,10 +13,7 @@ Open Scope N_scope.
 Section Q.
   Variable msg : list byte.
 
-  (* the decoded text of the name the spec finds at p *)
-  Definition name_text (p : N) : list byte :=
-    match spec_name msg p with SAccept ls _ => join_labels (map snd ls) | SReject _ => [] end.
-  Definition qobs (it : aitem) : obs := OQuestion (name_text (a_start it)) (a_type it) (a_class it).
+  Definition qobs (it : aitem) : obs := OQuestion (name_text msg (a_start it)) (a_type it) (a_class it).
 
   Lemma questions_drain_chain : forall qs p e, chain msg question_at (fun _ => True) p qs e ->
     Forall (fun it => a_fits255 it = true) qs ->
@@ -41,6 +38,43 @@ Section Q.
   Proof.
     intros (_ & _ & Hq & _) Hl Hh Hfit. unfold iter_questions. rewrite Hh, <- Hl. unfold lenN. rewrite Nat2N.id.
     rewrite (questions_drain_chain qs 12 e1 Hq Hfit (c_with_pos msg HEADER_LENGTH) []); [reflexivity|split; reflexivity|].
+    cbn [pos c_with_pos]. apply HEADER_LENGTH_spec.
+  Qed.
+
+  (* MessageIterator::new: the answers offset it computes by skipping the announced questions is
+     where the questions of the pass end *)
+  Lemma c_skip_fwd' c d : pos c + d <= lim c -> c_skip c d = Ok (c_set_pos c (pos c + d)).
+  Proof.
+    intro H. unfold c_skip, c_len. rewrite cursor_len_spec.
+    assert (E : skip_guard (lim c - pos c) d = true) by (apply skip_guard_spec; lia). rewrite E. reflexivity.
+  Qed.
+
+  Lemma skip_question_at c it : whole msg c -> question_at msg (pos c) = Some it ->
+    m_skip_question msg c = (c_set_pos c (a_end it), Ok tt).
+  Proof.
+    intros Hw. unfold question_at. pose proof (skip_is_name_at msg c Hw) as Hs.
+    destruct (name_at msg (pos c)) as [[r fits]|]; [|discriminate].
+    unfold be. destruct (r + 2 <=? lenN msg) eqn:E1; [|discriminate]. destruct (r + 2 + 2 <=? lenN msg) eqn:E2; [|discriminate].
+    intro H; inversion H; subst. cbn [a_end].
+    unfold m_skip_question, mbind, lift_c, lift. rewrite Hs. cbn [bind].
+    destruct Hw as [Hl Ho]. rewrite c_skip_fwd' by (cbn [pos lim c_set_pos]; lia). reflexivity.
+  Qed.
+
+  Lemma skip_n_chain : forall qs p e, chain msg question_at (fun _ => True) p qs e ->
+    forall c, whole msg c -> pos c = p -> skip_n_questions msg (length qs) c = (c_set_pos c e, Ok tt).
+  Proof.
+    induction 1 as [p|p it rest e Hf _ Hc IH]; intros c Hw Hp; cbn [length skip_n_questions].
+    - unfold mret. subst p. destruct c; reflexivity.
+    - unfold mbind. rewrite (skip_question_at c it Hw) by (rewrite Hp; exact Hf).
+      rewrite (IH (c_set_pos c (a_end it)) (whole_set_pos msg c _ Hw) eq_refl). reflexivity.
+  Qed.
+
+  Theorem iter_new_spec nq an ns ar qs rs e1 e2 h c1 :
+    parsed msg nq an ns ar qs rs e1 e2 -> lenN qs = nq ->
+    read_header msg (c_new msg) = (c1, Ok h) -> h_qd h = nq -> iter_new msg = Ok (h, e1).
+  Proof.
+    intros (_ & _ & Hq & _) Hl Hrh Hh. unfold iter_new. rewrite Hrh. cbn [bind]. rewrite Hh, <- Hl. unfold lenN. rewrite Nat2N.id.
+    rewrite (skip_n_chain qs 12 e1 Hq (c_with_pos msg HEADER_LENGTH)); [reflexivity|split; reflexivity|].
     cbn [pos c_with_pos]. apply HEADER_LENGTH_spec.
   Qed.
 End Q.
